@@ -89,6 +89,9 @@ def gen_graph(rng):
         kind = rng.choice(["version", "help"])
         opts.append(("--%s-of-%s" % ("release" if kind == "version" else "more-help", nm.replace("!", "-bang")),
                      nm if rng.random() < 0.85 else None, "exit:" + kind))
+    if rng.random() < 0.2:
+        # an option of the application that is called like an option many programs have at their top level
+        opts.append(("--version", rng.choice(names + [None]), True))
     opts.append(("--g-0", None, True))
     flags = {'_help_if_no_args': rng.random() < 0.3, '_no_log_file': rng.random() < 0.3}
     if rng.random() < 0.2:
@@ -329,10 +332,45 @@ def judge(ctx, g, case):
             problems.append(("empty-argument-list-rejected", {"default": exp_default}))
     except Exception as err:
         problems.append(("parse-raises", {"argv": [], "type": type(err).__name__}))
+    if len(g['names']) % 3 == 0 and not problems:
+        required_common_option(ctx, g, exp_default, problems)
     for mech, detail in problems[:5]:
         ctx.violation(mech, detail, case)
     if has_diamond(g, anc):
         ctx.nontrivial(sig_of([g['cmds']]))
+
+
+def required_common_option(ctx, g, exp_default, problems):
+    """a second parser for the same commands whose only own option is common to all commands and REQUIRED: every
+    command accepts it, and nothing is accepted without it"""
+    try:
+        with contextlib.redirect_stderr(io.StringIO()), contextlib.redirect_stdout(io.StringIO()):
+            ap = ArgParser(commands=[tuple(c) if not isinstance(c, tuple) else c for c in g['cmds']],
+                           default_command=g['dflt'], prog="t")
+            ap.add_argument("--need", required=True)
+    except (Exception, SystemExit) as err:
+        problems.append(("acyclic-declaration-rejected", {"type": type(err).__name__, "msg": str(err)[:150],
+                                                          "with": "a required common option"}))
+        return
+    for cmd in g['real'] + [None]:
+        for given in (True, False):
+            argv = ([] if cmd is None else [cmd]) + (["--need", "v"] if given else [])
+            ctx.count("vectors_for_a_required_common_option")
+            try:
+                with contextlib.redirect_stderr(io.StringIO()), contextlib.redirect_stdout(io.StringIO()):
+                    ns = ap.parse_args(list(argv))
+                ok = True
+            except SystemExit:
+                ok = False
+            except Exception as err:
+                problems.append(("parse-raises", {"argv": argv, "type": type(err).__name__, "msg": str(err)[:100]}))
+                return
+            if ok != given:
+                problems.append(("global-option-rejected" if given else "required-option-not-demanded", {"argv": argv}))
+                return
+            if ok and (ns.need != "v" or ns.command != (cmd or exp_default)):
+                problems.append(("accepted-option-not-in-namespace", {"argv": argv, "command": ns.command}))
+                return
 
 
 def long_chain_case(ctx, n=1200):
